@@ -1,7 +1,6 @@
 import Lean.Data.Json
 import CbiVerif.Model.C06Compose
 import CbiVerif.Model.C06Fortran
-import CbiVerif.Model.C06FortranGuard
 import CbiVerif.Model.Exclude
 import CbiVerif.Model.Summary
 import CbiVerif.Drv.C06
@@ -15,9 +14,7 @@ import CbiVerif.Drv.C06
   `C06.mixed_eq_C_on_C_files`) followed by `SM.getSetmap`, `Summary.rows`, `Cov.compute` — the definitions of
   `Props/C06Compose.lean` / `Props/C06Fortran.lean`;
 `spec`  = per file the specification of its language — `CLexRef` (C05) or `Fortran.refText` / `Fortran.refNodes` (C17) — and
-  `C06L.specLineAttrL` (C01 reference machine per `-D` list); every `spec.files[i]` also carries `"lang"` and `"hash"` (the
-  lines of finding class F-C17-2 of a Fortran file, `C06L.hashLinesL`: `wf` requires the FULL guard `C06L.guardN` of every file,
-  the hypothesis of `C06.line_attribution_is_reference_mixed`). -/
+  `C06L.specLineAttrL` (C01 reference machine per `-D` list); every `spec.files[i]` also carries `"lang"`. -/
 open Lean
 namespace CbiVerif.Drv.C06Compose
 open CbiVerif.SM CbiVerif.C06C CbiVerif.C06L CbiVerif.Drv.C06
@@ -69,7 +66,7 @@ def specFile (plats : List Plat) (f : SrcFile) : Json :=
     | .error _ => (Json.null, false)
   Json.mkObj [("lang", Json.str (langName lang)),
     ("guard", Json.bool (guardL f)),
-    ("counted", natsJson (countedL f)), ("hash", natsJson (hashLinesL f)),
+    ("counted", natsJson (countedL f)),
     ("nodes", Json.arr ((specNodesL f).map fun (x : Bool × List Nat) => Json.arr #[Json.bool x.1, natsJson x.2]).toArray),
     ("attr", attr), ("accepts", Json.bool accepts),
     ("pp_agree", Json.bool (match lang with | .cFamily => ppAgree f.text | .fortranFree => ppAgreeF f.text | _ => true))]
@@ -96,7 +93,7 @@ def handle (j : Json) : Json :=
   let flag := fun (k : String) (x : Json) => (x.getObjValAs? Bool k).toOption.getD false
   Json.mkObj [("model", model),
     ("spec", Json.mkObj [("files", Json.arr sf.toArray),
-      ("wf", Json.bool ((sf.all fun x => flag "guard" x && flag "accepts" x) && files.all guardN)),
+      ("wf", Json.bool (sf.all fun x => flag "guard" x && flag "accepts" x)),
       ("sloc", nj ((files.map fun f => (countedL f).length).sum))])]
 
 def handlers : List (String × (Json → Json)) := [("c06text", handle)]
